@@ -131,6 +131,7 @@ structure Inv (c : Cfg) (s : State) : Prop where
                   (allTerminal c s.phase = true ∨ ∀ n, s.cancel n = true ∨ s.pend n = true)
   retErrCtx   : s.retErr = some true → s.ctx = true
   ffCfg       : s.ff = true → c.failFast = true
+  ffWhy       : s.ff = true → ∃ a, a ∈ c.sel ∧ s.phase a = .failed
 
 theorem allTerminal_iff {c : Cfg} {ph : Node → Phase} :
     allTerminal c ph = true ↔ ∀ n, n ∈ c.sel → (ph n).terminal = true := by
